@@ -11,7 +11,7 @@ Open Scope Z_scope.
 (* ------------------------------------------------------------------ threads as a list *)
 Lemma thread_set_same g t sl ph :
   (t < length (g_threads g))%nat ->
-  thread (set_thread g t sl ph) t = {| ts_slot := sl; ts_poison := ts_poison (thread g t); ts_phase := ph |}.
+  thread (set_thread g t sl ph) t = {| ts_slot := sl; ts_phase := ph |}.
 Proof. intros H. unfold thread at 1. unfold set_thread. cbn. apply nth_set_nth_same. exact H. Qed.
 Lemma thread_set_other g t t' sl ph : t <> t' -> thread (set_thread g t sl ph) t' = thread g t'.
 Proof. intros H. unfold thread at 1. unfold set_thread. cbn. apply nth_set_nth_other. exact H. Qed.
@@ -21,7 +21,7 @@ Proof. unfold set_thread. cbn. apply length_set_nth. Qed.
 Lemma thread_install_same g t is_thr c ph :
   (t < length (g_threads g))%nat ->
   thread (install g t is_thr c ph) t =
-    {| ts_slot := if is_thr then Some c else ts_slot (thread g t); ts_poison := ts_poison (thread g t); ts_phase := ph |}.
+    {| ts_slot := if is_thr then Some c else ts_slot (thread g t); ts_phase := ph |}.
 Proof.
   intros H. unfold install. destruct is_thr.
   - apply thread_set_same. exact H.
@@ -62,9 +62,6 @@ Lemma exit_raise_eq g t old is_thr e k : exit_raise g t old is_thr e k = exit_wi
 Proof. reflexivity. Qed.
 Lemma exit_return_eq g t old is_thr view cr : exit_return g t old is_thr view cr = exit_with g t old is_thr view (PDone (Return cr) (Some finished)).
 Proof. reflexivity. Qed.
-Lemma exit_commit_raises_eq g t old is_thr view k :
-  exit_commit_raises g t old is_thr view k = exit_with g t old is_thr view (PDone (Raised XCommit k) (Some left_open)).
-Proof. reflexivity. Qed.
 
 Section ExitWith.
 Variables (g : gst) (t : nat) (old : cref) (is_thr : bool) (view : option table) (ph : phase).
@@ -79,7 +76,7 @@ Proof. intros H. unfold exit_with. fold g1. rewrite thread_install_other by exac
 Lemma exit_thread_same :
   (t < length (g_threads g))%nat ->
   thread (exit_with g t old is_thr view ph) t =
-    {| ts_slot := if is_thr then Some old else ts_slot (thread g t); ts_poison := ts_poison (thread g t); ts_phase := ph |}.
+    {| ts_slot := if is_thr then Some old else ts_slot (thread g t); ts_phase := ph |}.
 Proof.
   intros H. unfold exit_with. fold g1. rewrite thread_install_same by (rewrite threads_release, g1_threads; exact H).
   rewrite thread_release, g1_thread. reflexivity.
@@ -99,18 +96,18 @@ End ExitWith.
 Inductive tick_shape (g : gst) (t : nat) : gst -> Prop :=
 | TS_none : tick_shape g t g
 | TS_set sl ph : tick_shape g t (set_thread g t sl ph)
-| TS_enter n is_thr body : tick_shape g t (install g t is_thr (CTx t) (PRun (CDb n) is_thr None [] [] body 0 []))
+| TS_enter n is_thr body : tick_shape g t (install g t is_thr (CTx t) (PRun (CDb n) is_thr None [] body 0 []))
 | TS_go sl ph : tick_shape g t (set_thread (with_glock g (Some t)) t sl ph)
 | TS_exit old is_thr view ph : tick_shape g t (exit_with g t old is_thr view ph).
 
 Lemma tick_has_shape g t : tick_shape g t (tick g t).
 Proof.
   unfold tick.
-  destruct (ts_phase (thread g t)) as [body|old is_thr view cached touched rest k created|r x]; [| |constructor].
+  destruct (ts_phase (thread g t)) as [body|old is_thr view cached rest k created|r x]; [| |constructor].
   - destruct (ts_slot (thread g t)) as [[n|u]|]; [apply TS_enter|apply TS_set|].
     destruct (g_proc g) as [[n|u]|]; [apply TS_enter|apply TS_set|apply TS_set].
   - destruct rest as [|st rest].
-    + destruct (poisoned (thread g t) touched); [rewrite exit_commit_raises_eq|rewrite exit_return_eq]; apply TS_exit.
+    + rewrite exit_return_eq. apply TS_exit.
     + destruct st; cbv zeta.
       * destruct (locked_by_other g t); [rewrite exit_raise_eq; apply TS_exit|].
         destruct (tbl_insert [a; b] (tview g view)) as [id v']. apply TS_go.
@@ -139,45 +136,28 @@ Proof.
   - apply exit_length.
 Qed.
 
-(* the fault of a thread's environment is fixed for the run *)
-Lemma poison_tick g t t' : ts_poison (thread (tick g t) t') = ts_poison (thread g t').
-Proof.
-  destruct (Nat.eq_dec t t') as [<-|Hne]; [|rewrite tick_other by exact Hne; reflexivity].
-  destruct (Nat.lt_ge_cases t (length (g_threads g))) as [Ht|Ht].
-  - destruct (tick_has_shape g t); auto.
-    + rewrite thread_set_same by exact Ht. reflexivity.
-    + rewrite thread_install_same by exact Ht. reflexivity.
-    + rewrite thread_set_same by exact Ht. reflexivity.
-    + rewrite exit_thread_same by exact Ht. reflexivity.
-  - unfold thread. rewrite !nth_overflow by (rewrite ?length_tick; lia). reflexivity.
-Qed.
-
 Lemma tick_done g t r x : ts_phase (thread g t) = PDone r x -> tick g t = g.
 Proof. intros H. unfold tick. rewrite H. reflexivity. Qed.
 
 (* ------------------------------------------------------------------ all or nothing, step by step *)
-(* the committed table changes in a step of thread t only when t's body has run to its end and commit runs:
-   the table becomes the transaction's view and doInTransaction returns -- or, with the fault, raises out of
-   commit *)
+(* the committed table changes in a step of thread t only when t's doInTransaction returns in that step,
+   and then it becomes exactly the transaction's view *)
 Lemma tick_committed g t :
   g_committed (tick g t) = g_committed g \/
-  exists old is_thr v cached touched k created,
-    ts_phase (thread g t) = PRun old is_thr (Some v) cached touched [] k created /\
+  exists old is_thr v cached k created,
+    ts_phase (thread g t) = PRun old is_thr (Some v) cached [] k created /\
     g_committed (tick g t) = v /\
-    ((t < length (g_threads g))%nat ->
-       ts_phase (thread (tick g t) t) = (if poisoned (thread g t) touched then PDone (Raised XCommit k) (Some left_open)
-                                         else PDone (Return created) (Some finished))).
+    ((t < length (g_threads g))%nat -> ts_phase (thread (tick g t) t) = PDone (Return created) (Some finished)).
 Proof.
   unfold tick.
-  destruct (ts_phase (thread g t)) as [body|old is_thr view cached touched rest k created|r x] eqn:Eph; [| |left; reflexivity].
+  destruct (ts_phase (thread g t)) as [body|old is_thr view cached rest k created|r x] eqn:Eph; [| |left; reflexivity].
   - left. destruct (ts_slot (thread g t)) as [[n|u]|]; [apply committed_install|reflexivity|].
     destruct (g_proc g) as [[n|u]|]; [apply committed_install|reflexivity|reflexivity].
   - destruct rest as [|st rest].
     + destruct view as [v|].
-      * right. exists old, is_thr, v, cached, touched, k, created. split; [reflexivity|].
-        destruct (poisoned (thread g t) touched); [rewrite exit_commit_raises_eq|rewrite exit_return_eq];
-          (split; [rewrite exit_committed; reflexivity|intros Hl; rewrite exit_thread_same by exact Hl; reflexivity]).
-      * left. destruct (poisoned (thread g t) touched); [rewrite exit_commit_raises_eq|rewrite exit_return_eq]; apply exit_committed.
+      * right. exists old, is_thr, v, cached, k, created. split; [reflexivity|]. rewrite exit_return_eq.
+        split; [rewrite exit_committed; reflexivity|intros Hl; rewrite exit_thread_same by exact Hl; reflexivity].
+      * left. rewrite exit_return_eq. apply exit_committed.
     + left.
       assert (E : forall e, g_committed (exit_raise g t old is_thr e k) = g_committed g) by (intros e; rewrite exit_raise_eq; apply exit_committed).
       destruct st; cbv zeta.
@@ -194,9 +174,6 @@ Proof. revert g; induction a as [|t a IH]; intros g; cbn; auto. Qed.
 Lemma length_run_sched sched : forall g, length (g_threads (run_sched g sched)) = length (g_threads g).
 Proof. induction sched as [|t s IH]; intros g; cbn; auto. rewrite IH. apply length_tick. Qed.
 
-Lemma poison_run sched : forall g t, ts_poison (thread (run_sched g sched) t) = ts_poison (thread g t).
-Proof. induction sched as [|t' s IH]; intros g t; cbn; auto. rewrite IH. apply poison_tick. Qed.
-
 (* once through, a thread stays through, whatever the others do *)
 Lemma done_stays sched : forall g t r x, ts_phase (thread g t) = PDone r x -> ts_phase (thread (run_sched g sched) t) = PDone r x.
 Proof.
@@ -206,34 +183,30 @@ Proof.
   - rewrite tick_other by exact Hne. exact H.
 Qed.
 
-(* a doInTransaction that ends by raising an exception of its body never changed the table, in no step,
-   under any interleaving (the fault apart: there the exception comes out of commit) *)
+(* a doInTransaction that ends by raising never changed the table, in no step, under any interleaving *)
 Lemma raised_never_committed g0 p t q e k x :
-  (t < length (g_threads g0))%nat -> e <> XCommit ->
+  (t < length (g_threads g0))%nat ->
   ts_phase (thread (run_sched g0 (p ++ t :: q)) t) = PDone (Raised e k) x ->
   g_committed (run_sched g0 (p ++ [t])) = g_committed (run_sched g0 p).
 Proof.
-  intros Hl Hne Hfin. rewrite run_sched_app. cbn.
-  destruct (tick_committed (run_sched g0 p) t) as [H|(old & is_thr & v & cached & touched & k' & created & _ & _ & H)]; [exact H|].
+  intros Hl Hfin. rewrite run_sched_app. cbn.
+  destruct (tick_committed (run_sched g0 p) t) as [H|(old & is_thr & v & cached & k' & created & _ & _ & H)]; [exact H|].
   exfalso. rewrite length_run_sched in H. specialize (H Hl).
   assert (E : run_sched g0 (p ++ t :: q) = run_sched (tick (run_sched g0 p) t) q) by (rewrite run_sched_app; reflexivity).
-  rewrite E in Hfin.
-  destruct (poisoned (thread (run_sched g0 p) t) touched); rewrite (done_stays q _ t _ _ H) in Hfin; inversion Hfin; congruence.
+  rewrite E in Hfin. rewrite (done_stays q _ t _ _ H) in Hfin. discriminate.
 Qed.
 
 (* ------------------------------------------------------------------ invariants of the thread-level runs *)
 (* relative to the start g0: a thread outside its doInTransaction has its own connection in its slot;
    inside, the slot holds its transaction and `old` is that connection; whoever has a private view holds
-   the lock, and the lock is held by a thread with a private view; a transaction is finished and released
-   unless the fault struck *)
+   the lock, and the lock is held by a thread with a private view; a used transaction is finished and released *)
 Definition inv_thread (g0 g : gst) (t : nat) : Prop :=
   match ts_phase (thread g t) with
   | PIdle _ => ts_slot (thread g t) = ts_slot (thread g0 t)
-  | PRun old is_thr view _ _ _ _ _ =>
+  | PRun old is_thr view _ _ _ _ =>
       is_thr = true /\ ts_slot (thread g t) = Some (CTx t) /\ ts_slot (thread g0 t) = Some old /\
       (view <> None -> g_lock g = Some t)
-  | PDone r x => ts_slot (thread g t) = ts_slot (thread g0 t) /\
-                 (x = Some finished \/ (x = Some left_open /\ ts_poison (thread g t) <> None /\ exists k, r = Raised XCommit k))
+  | PDone r x => ts_slot (thread g t) = ts_slot (thread g0 t) /\ x = Some finished
   end.
 
 Definition inv (g0 g : gst) : Prop :=
@@ -241,7 +214,7 @@ Definition inv (g0 g : gst) : Prop :=
   (forall t, (t < length (g_threads g0))%nat -> slot_is_db (ts_slot (thread g0 t)) = true /\ inv_thread g0 g t) /\
   (forall t, g_lock g = Some t ->
      (t < length (g_threads g0))%nat /\
-     exists old is_thr v cached touched rest k created, ts_phase (thread g t) = PRun old is_thr (Some v) cached touched rest k created).
+     exists old is_thr v cached rest k created, ts_phase (thread g t) = PRun old is_thr (Some v) cached rest k created).
 
 Lemma forallb_nth {X} (f : X -> bool) l d n : forallb f l = true -> (n < length l)%nat -> f (nth n l d) = true.
 Proof. intros H Hn. rewrite forallb_forall in H. apply H. apply nth_In. exact Hn. Qed.
@@ -266,7 +239,7 @@ Proof.
   assert (Htg : (t < length (g_threads g))%nat) by lia.
   destruct (IT t Ht) as [Hdb It]. unfold inv_thread in It.
   unfold tick.
-  destruct (ts_phase (thread g t)) as [body|old is_thr view cached touched rest k created|r x] eqn:Eph.
+  destruct (ts_phase (thread g t)) as [body|old is_thr view cached rest k created|r x] eqn:Eph.
   - (* entering *)
     rewrite It. destruct (ts_slot (thread g0 t)) as [[n|u]|] eqn:Es; try discriminate.
     split; [rewrite length_install; exact IL|]. split; [rewrite proc_install; exact IP|]. split.
@@ -276,45 +249,39 @@ Proof.
         intros Hv. exfalso. apply Hv. reflexivity.
       * rewrite thread_install_other by exact Hne. destruct (IT t' Ht') as [_ H']. unfold inv_thread in H'.
         destruct (ts_phase (thread g t')); auto; try (rewrite lock_install; exact H').
-    + intros t' Hk. rewrite lock_install in Hk. destruct (IK t' Hk) as (Hl & old' & i' & v' & c' & tc' & r' & k' & cr' & E).
+    + intros t' Hk. rewrite lock_install in Hk. destruct (IK t' Hk) as (Hl & old' & i' & v' & c' & r' & k' & cr' & E).
       split; [exact Hl|]. assert (t <> t') by (intros <-; congruence). rewrite thread_install_other by assumption. eauto 12.
   - destruct It as (-> & Hslot & Hold & Hview).
     (* leaving the body, any way: the slot gets `old` back, the lock is released if held *)
-    assert (Exit : forall vw r x,
-              (x = finished \/ (x = left_open /\ ts_poison (thread g t) <> None /\ exists k0, r = Raised XCommit k0)) ->
-              inv g0 (exit_with g t old true vw (PDone r (Some x)))).
-    { intros vw r x Hx.
+    assert (Exit : forall vw r, inv g0 (exit_with g t old true vw (PDone r (Some finished)))).
+    { intros vw r.
       split; [rewrite exit_length; exact IL|]. split; [rewrite exit_proc; exact IP|]. split.
       - intros t' Ht'. split; [apply (IT t' Ht')|]. unfold inv_thread.
         destruct (Nat.eq_dec t t') as [<-|Hne].
-        + rewrite exit_thread_same by exact Htg. cbn [ts_phase ts_slot ts_poison]. split; [congruence|].
-          destruct Hx as [->|(-> & Hp & Hr)]; [left; reflexivity|right; auto].
+        + rewrite exit_thread_same by exact Htg. cbn [ts_phase ts_slot]. split; [congruence|reflexivity].
         + rewrite exit_thread_other by exact Hne.
           destruct (IT t' Ht') as [_ H']. unfold inv_thread in H'.
-          destruct (ts_phase (thread g t')) as [| old' i' view' c' tc' r' k' cr' |]; auto.
+          destruct (ts_phase (thread g t')) as [| old' i' view' c' r' k' cr' |]; auto.
           destruct H' as (A & B & C & D). repeat split; auto. intros Hv. specialize (D Hv).
           rewrite exit_lock, D. destruct (Nat.eqb t' t) eqn:E; [apply Nat.eqb_eq in E; congruence|reflexivity].
       - intros t' Hk. rewrite exit_lock in Hk.
         destruct (g_lock g) as [tl|] eqn:El; [|discriminate]. destruct (Nat.eqb tl t) eqn:E; [discriminate|]. inversion Hk; subst tl.
-        apply Nat.eqb_neq in E. destruct (IK t' eq_refl) as (Hl & old' & i' & v' & c' & tc' & r' & k' & cr' & E').
+        apply Nat.eqb_neq in E. destruct (IK t' eq_refl) as (Hl & old' & i' & v' & c' & r' & k' & cr' & E').
         split; [exact Hl|]. rewrite exit_thread_other by congruence. eauto 12. }
     destruct rest as [|st rest].
-    + destruct (poisoned (thread g t) touched) eqn:Epo.
-      * rewrite exit_commit_raises_eq. apply Exit. right. split; [reflexivity|]. split; [|eauto].
-        unfold poisoned in Epo. destruct (ts_poison (thread g t)); [discriminate|discriminate].
-      * rewrite exit_return_eq. apply Exit. left. reflexivity.
-    + assert (Eraise : forall e, inv g0 (exit_raise g t old true e k)) by (intros e; rewrite exit_raise_eq; apply Exit; left; reflexivity).
+    + rewrite exit_return_eq. apply Exit.
+    + assert (Eraise : forall e, inv g0 (exit_raise g t old true e k)) by (intros e; rewrite exit_raise_eq; apply Exit).
       (* a write that goes through: the thread keeps running with a private view and holds the lock *)
-      assert (Go : forall v' c' tc' cr', locked_by_other g t = false ->
-                inv g0 (set_thread (with_glock g (Some t)) t (ts_slot (thread g t)) (PRun old true (Some v') c' tc' rest (S k) cr'))).
-      { intros v' c' tc' cr' Hlo.
+      assert (Go : forall v' c' cr', locked_by_other g t = false ->
+                inv g0 (set_thread (with_glock g (Some t)) t (ts_slot (thread g t)) (PRun old true (Some v') c' rest (S k) cr'))).
+      { intros v' c' cr' Hlo.
         split; [rewrite length_set_thread; exact IL|]. split; [exact IP|]. split.
         - intros t' Ht'. split; [apply (IT t' Ht')|]. unfold inv_thread.
           destruct (Nat.eq_dec t t') as [<-|Hne].
           + rewrite thread_set_same by exact Htg. cbn [ts_phase ts_slot]. repeat split; auto.
           + rewrite thread_set_other by exact Hne. change (thread (with_glock g (Some t)) t') with (thread g t').
             destruct (IT t' Ht') as [_ H']. unfold inv_thread in H'.
-            destruct (ts_phase (thread g t')) as [| old' i' view' c'' tc'' r' k' cr'' |]; auto.
+            destruct (ts_phase (thread g t')) as [| old' i' view' c'' r' k' cr'' |]; auto.
             destruct H' as (A & B & C & D). repeat split; auto. intros Hv. specialize (D Hv). cbn.
             destruct (locked_by_other_false g t Hlo); congruence.
         - intros t' Hk. cbn in Hk. inversion Hk; subst t'. split; [exact Ht|]. rewrite thread_set_same by exact Htg. cbn. eauto 12. }
@@ -336,12 +303,12 @@ Qed.
 Lemma resolve_thread_level g0 g t :
   inv g0 g -> (t < length (g_threads g0))%nat ->
   match ts_phase (thread g t) with
-  | PRun _ _ _ _ _ _ _ _ => resolve g t = Some (CTx t)
+  | PRun _ _ _ _ _ _ _ => resolve g t = Some (CTx t)
   | _ => resolve g t = resolve g0 t
   end.
 Proof.
   intros (IL & IP & IT & IK) Ht. destruct (IT t Ht) as [Hdb It]. unfold inv_thread in It. unfold resolve.
-  destruct (ts_phase (thread g t)) as [body|old is_thr view cached touched rest k created|r x].
+  destruct (ts_phase (thread g t)) as [body|old is_thr view cached rest k created|r x].
   - rewrite It, IP. reflexivity.
   - destruct It as (_ & Hs & _). rewrite Hs. reflexivity.
   - destruct It as [Hs _]. rewrite Hs, IP. reflexivity.
@@ -352,7 +319,7 @@ Lemma isolated g0 g t t' :
   inv g0 g -> g_lock g = Some t -> t' <> t -> g_committed (tick g t') = g_committed g.
 Proof.
   intros (IL & IP & IT & IK) Hl Hne.
-  destruct (tick_committed g t') as [H|(old & is_thr & v & cached & touched & k & created & Hph & _ & _)]; [exact H|].
+  destruct (tick_committed g t') as [H|(old & is_thr & v & cached & k & created & Hph & _ & _)]; [exact H|].
   exfalso. destruct (Nat.lt_ge_cases t' (length (g_threads g0))) as [Ht'|Ht'].
   - destruct (IT t' Ht') as [_ It]. unfold inv_thread in It. rewrite Hph in It. destruct It as (_ & _ & _ & Hv).
     assert (g_lock g = Some t') by (apply Hv; discriminate). congruence.
@@ -382,81 +349,64 @@ Proof.
   destruct (locked_by_other_false g t Hl) as [E|E]; rewrite E; [reflexivity|]. rewrite Nat.eqb_refl. reflexivity.
 Qed.
 
-(* what doInTransaction ends with, given the outcome of the body and the ids it touched *)
-Definition final_phase (po : option Z) (r : result) (touched : list Z) (kend : nat) : phase :=
-  match r with
-  | Return _ => if (match po with Some id => mem_z id touched | None => false end)
-                then PDone (Raised XCommit kend) (Some left_open) else PDone r (Some finished)
-  | Raised _ _ => PDone r (Some finished)
-  end.
-
-Lemma alone_steps t : forall rest g old is_thr view cached touched k created,
+Lemma alone_steps t : forall rest g old is_thr view cached k created,
   (t < length (g_threads g))%nat ->
-  ts_phase (thread g t) = PRun old is_thr view cached touched rest k created ->
+  ts_phase (thread g t) = PRun old is_thr view cached rest k created ->
   locked_by_other g t = false ->
   let g' := run_sched g (repeat t (length rest + 1)) in
   let r := fst (body_run (tview g view) cached rest k created) in
   let tb := snd (body_run (tview g view) cached rest k created) in
-  ts_phase (thread g' t) = final_phase (ts_poison (thread g t)) r (body_touched (tview g view) cached touched rest) (k + length rest) /\
+  ts_phase (thread g' t) = PDone r (Some finished) /\
   g_committed g' = (match r with Return _ => tb | Raised _ _ => g_committed g end) /\
   restored g g' t old is_thr.
 Proof.
-  induction rest as [|st rest IH]; intros g old is_thr view cached touched k created Ht Hph Hl.
-  - cbn [length Nat.add repeat run_sched body_run body_touched fst snd]. unfold tick. rewrite Hph. unfold final_phase, poisoned.
-    rewrite Nat.add_0_r.
-    destruct (match ts_poison (thread g t) with Some id => mem_z id touched | None => false end);
-      [rewrite exit_commit_raises_eq|rewrite exit_return_eq];
-      match goal with |- context [exit_with g t old is_thr view ?ph] => destruct (exit_spec g t old is_thr view ph Ht Hl) as (A & B & C) end;
-      (split; [exact A|]); (split; [exact B|exact C]).
+  induction rest as [|st rest IH]; intros g old is_thr view cached k created Ht Hph Hl.
+  - cbn [length Nat.add repeat run_sched body_run fst snd]. unfold tick. rewrite Hph. rewrite exit_return_eq.
+    destruct (exit_spec g t old is_thr view (PDone (Return created) (Some finished)) Ht Hl) as (A & B & C).
+    split; [exact A|]. split; [exact B|exact C].
   - change (length (st :: rest) + 1)%nat with (S (length rest + 1)). cbn [repeat run_sched].
-    replace (k + length (st :: rest))%nat with (S k + length rest)%nat by (cbn; lia).
     (* the step raises: everything after it is a no-op *)
     assert (Raise : forall e, tick g t = exit_raise g t old is_thr e k ->
               body_run (tview g view) cached (st :: rest) k created = (Raised e k, tview g view) ->
               let g' := run_sched (tick g t) (repeat t (length rest + 1)) in
-              ts_phase (thread g' t) = final_phase (ts_poison (thread g t)) (fst (body_run (tview g view) cached (st :: rest) k created))
-                                         (body_touched (tview g view) cached touched (st :: rest)) (S k + length rest) /\
+              ts_phase (thread g' t) = PDone (fst (body_run (tview g view) cached (st :: rest) k created)) (Some finished) /\
               g_committed g' = (match fst (body_run (tview g view) cached (st :: rest) k created) with
                                 | Return _ => snd (body_run (tview g view) cached (st :: rest) k created)
                                 | Raised _ _ => g_committed g end) /\
               restored g g' t old is_thr).
     { intros e Et Eb g'. rewrite exit_raise_eq in Et. destruct (exit_spec g t old is_thr None (PDone (Raised e k) (Some finished)) Ht Hl) as (A & B & C).
-      unfold g'. rewrite Et. rewrite (run_done _ t _ _ _ A). rewrite Eb. cbn [fst snd final_phase]. auto. }
+      unfold g'. rewrite Et. rewrite (run_done _ t _ _ _ A). rewrite Eb. cbn [fst snd]. auto. }
     (* the step writes: the rest runs from the new view *)
-    assert (Go : forall v' c' tc' cr',
-              tick g t = set_thread (with_glock g (Some t)) t (ts_slot (thread g t)) (PRun old is_thr (Some v') c' tc' rest (S k) cr') ->
+    assert (Go : forall v' c' cr',
+              tick g t = set_thread (with_glock g (Some t)) t (ts_slot (thread g t)) (PRun old is_thr (Some v') c' rest (S k) cr') ->
               body_run (tview g view) cached (st :: rest) k created = body_run v' c' rest (S k) cr' ->
-              body_touched (tview g view) cached touched (st :: rest) = body_touched v' c' tc' rest ->
               let g' := run_sched (tick g t) (repeat t (length rest + 1)) in
-              ts_phase (thread g' t) = final_phase (ts_poison (thread g t)) (fst (body_run (tview g view) cached (st :: rest) k created))
-                                         (body_touched (tview g view) cached touched (st :: rest)) (S k + length rest) /\
+              ts_phase (thread g' t) = PDone (fst (body_run (tview g view) cached (st :: rest) k created)) (Some finished) /\
               g_committed g' = (match fst (body_run (tview g view) cached (st :: rest) k created) with
                                 | Return _ => snd (body_run (tview g view) cached (st :: rest) k created)
                                 | Raised _ _ => g_committed g end) /\
               restored g g' t old is_thr).
-    { intros v' c' tc' cr' Et Eb Etc g'. unfold g'. rewrite Et, Eb, Etc.
-      set (g1 := set_thread (with_glock g (Some t)) t (ts_slot (thread g t)) (PRun old is_thr (Some v') c' tc' rest (S k) cr')).
+    { intros v' c' cr' Et Eb g'. unfold g'. rewrite Et, Eb.
+      set (g1 := set_thread (with_glock g (Some t)) t (ts_slot (thread g t)) (PRun old is_thr (Some v') c' rest (S k) cr')).
       assert (Ht1 : (t < length (g_threads g1))%nat) by (unfold g1; rewrite length_set_thread; exact Ht).
-      assert (Hth1 : thread g1 t = {| ts_slot := ts_slot (thread g t); ts_poison := ts_poison (thread g t);
-                                      ts_phase := PRun old is_thr (Some v') c' tc' rest (S k) cr' |})
+      assert (Hth1 : thread g1 t = {| ts_slot := ts_slot (thread g t); ts_phase := PRun old is_thr (Some v') c' rest (S k) cr' |})
         by (unfold g1; rewrite thread_set_same by exact Ht; reflexivity).
-      assert (Hp1 : ts_phase (thread g1 t) = PRun old is_thr (Some v') c' tc' rest (S k) cr') by (rewrite Hth1; reflexivity).
+      assert (Hp1 : ts_phase (thread g1 t) = PRun old is_thr (Some v') c' rest (S k) cr') by (rewrite Hth1; reflexivity).
       assert (Hl1 : locked_by_other g1 t = false) by (unfold locked_by_other, g1; cbn; rewrite Nat.eqb_refl; reflexivity).
-      destruct (IH g1 old is_thr (Some v') c' tc' (S k) cr' Ht1 Hp1 Hl1) as (A & B & (C1 & C2 & C3)).
-      cbn [tview] in A, B. rewrite Hth1 in A. cbn [ts_poison] in A. split; [exact A|]. split; [exact B|].
+      destruct (IH g1 old is_thr (Some v') c' (S k) cr' Ht1 Hp1 Hl1) as (A & B & (C1 & C2 & C3)).
+      cbn [tview] in A, B. split; [exact A|]. split; [exact B|].
       unfold restored. rewrite C1, C2, C3. rewrite Hth1. cbn. auto. }
     destruct st.
     + destruct (tbl_insert [a; b] (tview g view)) as [id v'] eqn:Ei.
-      apply (Go v' (add_id id cached) (add_id id touched) (created ++ [id])); [unfold tick; rewrite Hph; cbv zeta; rewrite Hl, Ei; reflexivity| |].
-      * cbn [body_run]. rewrite Ei. reflexivity.
-      * cbn [body_touched]. rewrite Ei. reflexivity.
+      apply (Go v' (add_id id cached) (created ++ [id])); [unfold tick; rewrite Hph; cbv zeta; rewrite Hl, Ei; reflexivity|].
+      cbn [body_run]. rewrite Ei. reflexivity.
     + destruct (get_ok (tview g view) cached id) eqn:Eg.
-      * apply (Go (tbl_update id c v (tview g view)) (add_id id cached) (add_id id touched) created);
-          [unfold tick; rewrite Hph; cbv zeta; rewrite Eg, Hl; reflexivity|cbn [body_run]; rewrite Eg; reflexivity|cbn [body_touched]; rewrite Eg; reflexivity].
+      * apply (Go (tbl_update id c v (tview g view)) (add_id id cached) created);
+          [unfold tick; rewrite Hph; cbv zeta; rewrite Eg, Hl; reflexivity|cbn [body_run]; rewrite Eg; reflexivity].
       * apply (Raise XNotFound); [unfold tick; rewrite Hph; cbv zeta; rewrite Eg; reflexivity|cbn [body_run]; rewrite Eg; reflexivity].
     + destruct (get_ok (tview g view) cached id) eqn:Eg.
-      * apply (Go (tbl_delete id (tview g view)) (remove_id id cached) (add_id id touched) created);
-          [unfold tick; rewrite Hph; cbv zeta; rewrite Eg, Hl; reflexivity|cbn [body_run]; rewrite Eg; reflexivity|cbn [body_touched]; rewrite Eg; reflexivity].
+      * apply (Go (tbl_delete id (tview g view)) (remove_id id cached) created);
+          [unfold tick; rewrite Hph; cbv zeta; rewrite Eg, Hl; reflexivity|cbn [body_run]; rewrite Eg; reflexivity].
       * apply (Raise XNotFound); [unfold tick; rewrite Hph; cbv zeta; rewrite Eg; reflexivity|cbn [body_run]; rewrite Eg; reflexivity].
     + apply (Raise (XUser n)); [unfold tick; rewrite Hph; reflexivity|reflexivity].
 Qed.
@@ -466,30 +416,30 @@ Qed.
 Lemma alone g t body n (is_thr : bool) :
   (t < length (g_threads g))%nat ->
   ts_phase (thread g t) = PIdle body ->
-  (if is_thr return Prop then ts_slot (thread g t) = Some (CDb n) else ts_slot (thread g t) = None /\ g_proc g = Some (CDb n)) ->
+  caller_bound g t n is_thr ->
   g_lock g = None ->
   let g' := run_sched g (repeat t (length body + 2)) in
   let r := body_result (g_committed g) body in
-  ts_phase (thread g' t) = final_phase (ts_poison (thread g t)) r (body_touched (g_committed g) [] [] body) (length body) /\
+  ts_phase (thread g' t) = PDone r (Some finished) /\
   g_committed g' = (match r with Return _ => body_table (g_committed g) body | Raised _ _ => g_committed g end) /\
   (forall t', resolve g' t' = resolve g t') /\ g_lock g' = None.
 Proof.
-  intros Ht Hph Hslot Hl g' r.
-  assert (Et : tick g t = install g t is_thr (CTx t) (PRun (CDb n) is_thr None [] [] body 0 [])).
+  intros Ht Hph Hslot Hl g' r. unfold caller_bound in Hslot.
+  assert (Et : tick g t = install g t is_thr (CTx t) (PRun (CDb n) is_thr None [] body 0 [])).
   { unfold tick. rewrite Hph. destruct is_thr.
     - rewrite Hslot. reflexivity.
     - destruct Hslot as [Hs Hp]. rewrite Hs, Hp. reflexivity. }
   unfold g'. replace (length body + 2)%nat with (S (length body + 1)) by lia. cbn [repeat run_sched]. rewrite Et.
-  set (g1 := install g t is_thr (CTx t) (PRun (CDb n) is_thr None [] [] body 0 [])).
+  set (g1 := install g t is_thr (CTx t) (PRun (CDb n) is_thr None [] body 0 [])).
   assert (Ht1 : (t < length (g_threads g1))%nat) by (unfold g1; rewrite length_install; exact Ht).
-  assert (Hth1 : thread g1 t = {| ts_slot := if is_thr then Some (CTx t) else ts_slot (thread g t); ts_poison := ts_poison (thread g t);
-                                  ts_phase := PRun (CDb n) is_thr None [] [] body 0 [] |})
+  assert (Hth1 : thread g1 t = {| ts_slot := if is_thr then Some (CTx t) else ts_slot (thread g t);
+                                  ts_phase := PRun (CDb n) is_thr None [] body 0 [] |})
     by (unfold g1; apply thread_install_same; exact Ht).
-  assert (Hp1 : ts_phase (thread g1 t) = PRun (CDb n) is_thr None [] [] body 0 []) by (rewrite Hth1; reflexivity).
+  assert (Hp1 : ts_phase (thread g1 t) = PRun (CDb n) is_thr None [] body 0 []) by (rewrite Hth1; reflexivity).
   assert (Hl1 : locked_by_other g1 t = false) by (unfold locked_by_other, g1; rewrite lock_install, Hl; reflexivity).
-  destruct (alone_steps t body g1 (CDb n) is_thr None [] [] 0 [] Ht1 Hp1 Hl1) as (A & B & (C1 & C2 & C3)).
+  destruct (alone_steps t body g1 (CDb n) is_thr None [] 0 [] Ht1 Hp1 Hl1) as (A & B & (C1 & C2 & C3)).
   assert (Ec : g_committed g1 = g_committed g) by (unfold g1; apply committed_install).
-  cbn [tview] in A, B. rewrite Ec in A, B. rewrite Hth1 in A. cbn [ts_poison Nat.add] in A.
+  cbn [tview] in A, B. rewrite Ec in A, B.
   fold (body_result (g_committed g) body) in A, B. fold (body_table (g_committed g) body) in B.
   split; [exact A|]. split; [exact B|]. split; [|exact C3].
   intros t'. unfold resolve. rewrite C2.
